@@ -54,16 +54,16 @@ def run(ctx):
     for proto in sysattr.PROTOS:
         for rate in ((0, 40) if quick else (0, 30, 60)):
             for sd in seeds:
-                cmds.append("LOOP %s %d %d %d" % (proto, 24 if quick else 64, rate, ctx.seed * 1000 + sd * 10 + rate))
+                cmds.append("LOOP %s %d %d %d" % (proto, 24 if quick else 64, rate, ctx.vseed * 1000 + sd * 10 + rate))
         for rate in ((0, 40) if quick else (0, 30, 60)):
             for sd in seeds:
-                cmds.append("SPEC %s %d %d %d" % (proto, 24 if quick else 64, rate, ctx.seed * 1000 + sd * 10 + rate + 2))
+                cmds.append("SPEC %s %d %d %d" % (proto, 24 if quick else 64, rate, ctx.vseed * 1000 + sd * 10 + rate + 2))
         for rate in ((0, 40) if quick else (0, 30, 60)):
             for sd in seeds:
-                cmds.append("DUPLEX %s %d %d %d" % (proto, 24 if quick else 64, rate, ctx.seed * 1000 + sd * 10 + rate + 3))
+                cmds.append("DUPLEX %s %d %d %d" % (proto, 24 if quick else 64, rate, ctx.vseed * 1000 + sd * 10 + rate + 3))
         for rate in ((40,) if quick else (0, 40)):
             for sd in seeds:
-                cmds.append("BLOCK %s %d %d %d" % (proto, 16 if quick else 48, rate, ctx.seed * 1000 + sd * 10 + rate + 1))
+                cmds.append("BLOCK %s %d %d %d" % (proto, 16 if quick else 48, rate, ctx.vseed * 1000 + sd * 10 + rate + 1))
     rc, out, err = sysattr.run(exe, cmds, ctx, timeout=1500)
     ctx.traces += 1
     for c, o in zip(cmds, out):
